@@ -195,7 +195,7 @@ struct Runner {
 
     Out& out; bool shapes;
     C* c[3] = {nullptr, nullptr, nullptr};
-    long long serial = 0;
+    long long serial = 0, ncopies = 0;
     std::vector<long long> probe;
     Runner(Out& o, bool sh) : out(o), shapes(sh) {}
 
@@ -301,7 +301,7 @@ struct Runner {
                     sub(x, k, u, std::integral_constant<bool, FL == 2>());
                 } else if (op == "H") {
                     auto hint = at(x, h % ((long long)x.size() + 1));
-                    auto it = x.insert(hint, make(k, u));
+                    auto it = ins_hint(x, hint, k, u);
                     e.num("pos", index_of(x, it));
                 } else {
                     bool ins = true; long long pos = ins_(x, k, u, ins);
@@ -335,7 +335,10 @@ struct Runner {
             } else if (op == "C") {
                 is >> ci; e.num("c", ci); c[ci]->clear();
             } else if (op == "Y") {
-                ci = 2; C* nc = new C(*c[1]); delete c[2]; c[2] = nc; e.num("c", 2);
+                // copy construction, alternating with construction from the range [begin, end) of the other container (same contents, same order)
+                ci = 2; bool byrange = (++ncopies % 2) == 0;
+                C* nc = byrange ? new C(c[1]->begin(), c[1]->end()) : new C(*c[1]); delete c[2]; c[2] = nc; e.num("c", 2);
+                if (byrange) e.s.replace(e.s.find("\"op\":\"Y\""), 8, "\"op\":\"YR\"");       // a range construction may order equivalent keys differently from the source
             } else if (op == "A") {
                 long long n; is >> n; e.num("n", n);
                 if (n == 1) { *c[1] = *c[2]; ci = 1; } else if (n == 2) { *c[2] = *c[1]; ci = 2; } else { C& self = *c[1]; *c[1] = self; ci = 1; }
@@ -362,7 +365,18 @@ struct Runner {
         }
         aledger().out = nullptr;
     }
-    long long ins_(C& x, long long k, long long u, bool& ins) { return ins2(x, x.insert(make(k, u)), ins); }
+    // maps: every second insertion goes through insert2(key, data) / insert2(hint, key, data), the (key, data) forms of insert
+    long long ins_(C& x, long long k, long long u, bool& ins) { return ins_m(x, k, u, ins, std::integral_constant<bool, IsMap>()); }
+    long long ins_m(C& x, long long k, long long u, bool& ins, std::false_type) { return ins2(x, x.insert(make(k, u)), ins); }
+    long long ins_m(C& x, long long k, long long u, bool& ins, std::true_type) {
+        if (u % 2) return ins2(x, x.insert(make(k, u)), ins);
+        return ins2(x, x.insert2(KT((int)k), DT((int)u)), ins);
+    }
+    typename C::iterator ins_hint(C& x, typename C::iterator hint, long long k, long long u) { return ins_hint_m(x, hint, k, u, std::integral_constant<bool, IsMap>()); }
+    typename C::iterator ins_hint_m(C& x, typename C::iterator hint, long long k, long long u, std::false_type) { return x.insert(hint, make(k, u)); }
+    typename C::iterator ins_hint_m(C& x, typename C::iterator hint, long long k, long long u, std::true_type) {
+        return (u % 2) ? x.insert(hint, make(k, u)) : x.insert2(hint, KT((int)k), DT((int)u));
+    }
     long long ins2(C& x, std::pair<typename C::iterator, bool> r, bool& ins) { ins = r.second; return index_of(x, r.first); }
     long long ins2(C& x, typename C::iterator r, bool& ins) { ins = true; return index_of(x, r); }
     void sub(C& x, long long k, long long u, std::true_type) { x[KT((int)k)] = DT((int)u); }
